@@ -741,4 +741,81 @@ theorem top_shift3 (x k s : Nat) (hs1 : 1 ≤ s) (hs : s ≤ 63) (hx : x < B ^ (
   refine ⟨rx, by rw [p1]; exact hrx, ?_⟩
   rw [p1, ← e, ← ex]
 
+/-- the shift count chosen from the mask of the two top limbs -/
+theorem clz_mask (ta tb : Nat) (hm : ¬ 2 ^ 63 ≤ ta ||| tb) :
+    1 ≤ clz (ta ||| tb) ∧ clz (ta ||| tb) ≤ 63 ∧
+    ta < 2 ^ (64 - clz (ta ||| tb)) ∧ tb < 2 ^ (64 - clz (ta ||| tb)) := by
+  have h1 : ta ≤ ta ||| tb := Nat.left_le_or
+  have h2 : tb ≤ ta ||| tb := Nat.right_le_or
+  generalize ta ||| tb = mask at *
+  have hlog : mask.log2 < 63 := by
+    rcases Nat.eq_zero_or_pos mask with h | h
+    · subst h; simp
+    · exact (Nat.log2_lt (by omega)).mpr (by omega)
+  have hlt : mask < 2 ^ (mask.log2 + 1) := Nat.lt_log2_self
+  unfold clz
+  have e : 64 - (63 - mask.log2) = mask.log2 + 1 := by omega
+  rw [e]
+  refine ⟨by omega, by omega, by omega, by omega⟩
+
+/-- The four limbs `top2` hands to mpn_hgcd2 are ⌊a·2^s / B^(n-2)⌋ and ⌊b·2^s / B^(n-2)⌋ as two-limb
+    values, for one common shift 0 ≤ s ≤ 63. -/
+theorem top2_spec (a b n : Nat) (hn : 2 ≤ n) (ha : a < B ^ n) (hb : b < B ^ n) :
+    ∃ s rx ry, s ≤ 63 ∧ rx < B ^ (n - 2) ∧ ry < B ^ (n - 2) ∧
+      (top2 a b n).1 < B ∧ (top2 a b n).2.1 < B ∧ (top2 a b n).2.2.1 < B ∧ (top2 a b n).2.2.2 < B ∧
+      a * 2 ^ s = B ^ (n - 2) * ((top2 a b n).1 * B + (top2 a b n).2.1) + rx ∧
+      b * 2 ^ s = B ^ (n - 2) * ((top2 a b n).2.2.1 * B + (top2 a b n).2.2.2) + ry := by
+  unfold top2
+  dsimp only
+  by_cases hm : 2 ^ 63 ≤ limbAt a (n - 1) ||| limbAt b (n - 1)
+  · rw [if_pos hm]
+    obtain ⟨k, rfl⟩ : ∃ k, n = k + 2 := ⟨n - 2, by omega⟩
+    have e1 : k + 2 - 1 = k + 1 := rfl
+    have e2 : k + 2 - 2 = k := rfl
+    rw [e1, e2]
+    obtain ⟨a1, a2, a3⟩ := top_noshift a k ha
+    obtain ⟨b1, b2, b3⟩ := top_noshift b k hb
+    exact ⟨0, a % B ^ k, b % B ^ k, by omega, Nat.mod_lt _ (pow_pos B_pos _), Nat.mod_lt _ (pow_pos B_pos _),
+      a1, a2, b1, b2, a3, b3⟩
+  · rw [if_neg hm]
+    obtain ⟨hs1, hs, hta, htb⟩ := clz_mask _ _ hm
+    generalize clz (limbAt a (n - 1) ||| limbAt b (n - 1)) = s at *
+    by_cases h2 : n = 2
+    · rw [if_pos h2]
+      subst h2
+      obtain ⟨a1, a2, a3⟩ := top_shift2 a s hs1 hs ha hta
+      obtain ⟨b1, b2, b3⟩ := top_shift2 b s hs1 hs hb htb
+      exact ⟨s, 0, 0, hs, by simp, by simp, a1, a2, b1, b2, a3, b3⟩
+    · rw [if_neg h2]
+      obtain ⟨k, rfl⟩ : ∃ k, n = k + 3 := ⟨n - 3, by omega⟩
+      have e1 : k + 3 - 1 = k + 2 := rfl
+      have e2 : k + 3 - 2 = k + 1 := rfl
+      have e3 : k + 3 - 3 = k := rfl
+      rw [e1] at hta htb
+      rw [e1, e2, e3]
+      obtain ⟨a1, a2, rx, a3, a4⟩ := top_shift3 a k s hs1 hs ha hta
+      obtain ⟨b1, b2, ry, b3, b4⟩ := top_shift3 b k s hs1 hs hb htb
+      exact ⟨s, rx, ry, hs, a3, b3, a1, a2, b1, b2, a4, b4⟩
+
+/-- **The contract of mpn_hgcd2** as used by the Lehmer loops of mpn_gcd and mpn_gcdext_lehmer_n,
+    for the executable model `hgcd2` (bit-exact mirror of mpn/generic/hgcd2.c): whenever it returns
+    a matrix for the normalised top two limbs of (a, b), M has determinant 1, is not the identity,
+    M⁻¹(a; b) is positive in both components, and one of them (in fact both) keeps ≥ n - 1 limbs. -/
+theorem hgcd2_contract : Hgcd2Contract := by
+  intro a b n m hinv hn h
+  obtain ⟨h0a, h0b, haB, hbB, _, _⟩ := hinv
+  obtain ⟨s, rx, ry, hs, hrx, hry, t1, t2, t3, t4, ea, eb⟩ := top2_spec a b n hn haB hbB
+  have hp := hgcd2_post _ _ _ _ m t1 t2 t3 t4 h
+  have hA : (top2 a b n).1 * B + (top2 a b n).2.1 < B * B := by
+    have : ((top2 a b n).1 + 1) * B ≤ B * B := Nat.mul_le_mul_right _ t1
+    rw [Nat.add_mul] at this; omega
+  have hB : (top2 a b n).2.2.1 * B + (top2 a b n).2.2.2 < B * B := by
+    have : ((top2 a b n).2.2.1 + 1) * B ≤ B * B := Nat.mul_le_mul_right _ t3
+    rw [Nat.add_mul] at this; omega
+  have hne : NonId m := by obtain ⟨_, _, _, _, _, h⟩ := hp; exact h
+  obtain ⟨x, y, hr, hx, hy⟩ := post_extend hA hB hp (B ^ (n - 2)) rx ry hrx hry
+  rw [← ea, ← eb] at hr
+  obtain ⟨c1, c2, c3, c4, _⟩ := contract_of_mrel hs hr hx hy (pow_pos B_pos _)
+  exact ⟨c1, hne, c2, c3, Or.inl c4⟩
+
 end Mpir.Gcd
